@@ -60,6 +60,32 @@ def run(ctx):
     run_patterns(ctx)
     run_random_patterns(ctx)
     run_tensor_level(ctx)
+    run_default_dtype(ctx)
+
+
+def run_default_dtype(ctx):
+    """the carrier's element type when no dtype is given is torch's default dtype AT CONSTRUCTION time (bin/sum_product.py --double
+    sets it after importing fggs): from_int must then be the unique homomorphism in that precision (2^24 + 1 is not a float32)"""
+    saved = torch.get_default_dtype()
+    try:
+        for dt in (torch.float64, torch.float32, torch.float64):
+            torch.set_default_dtype(dt)
+            for name, cls in (('real', fggs.RealSemiring), ('log', fggs.LogSemiring), ('viterbi', fggs.ViterbiSemiring)):
+                sr = cls()
+                ctx.evaluations += 1
+                ctx.count('default-dtype')
+                got = [sr.dtype, sr.from_int(3).dtype, sr.zeros((2,)).dtype, sr.eye(2).physical.dtype if hasattr(sr.eye(2), 'physical') else sr.eye(2).dtype]
+                if any(g != dt for g in got):
+                    ctx.fail(f'{cls.__name__}() built after torch.set_default_dtype({dt}) works in {got}: from_int/zeros/eye are not in the carrier\'s precision',
+                             dict(semiring=name, default_dtype=str(dt)), [str(g) for g in got], str(dt), tags=['default-dtype', name])
+                    continue
+                if name == 'real' and dt == torch.float64:
+                    a, b = sr.from_int(2 ** 24 + 1).item(), sr.from_int(2 ** 24).item()
+                    if not (a == 2 ** 24 + 1 and b == 2 ** 24):
+                        ctx.fail('from_int is not injective on integers representable in the carrier', dict(semiring=name, default_dtype=str(dt)), [a, b],
+                                 [2 ** 24 + 1, 2 ** 24], tags=['default-dtype', 'from_int'])
+    finally:
+        torch.set_default_dtype(saved)
 
 
 def run_dtype(ctx, dtype):
